@@ -729,12 +729,571 @@ def _fold_unpacking(tree):
     return n
 
 
+# ------------------------------------------------------------------------------------------------ statement lowering
+
+def _map_blocks(tree, fn):
+    """apply fn(stmts) -> new stmts to every statement list of the tree, innermost first"""
+    def rec(node):
+        for fld in ("body", "orelse", "finalbody"):
+            blk = getattr(node, fld, None)
+            if isinstance(blk, list) and blk and isinstance(blk[0], ast.stmt):
+                for st in blk:
+                    rec(st)
+                setattr(node, fld, fn(blk))
+        for h in getattr(node, "handlers", []) or []:
+            for st in h.body:
+                rec(st)
+            h.body = fn(h.body)
+        for c in getattr(node, "cases", []) or []:
+            for st in c.body:
+                rec(st)
+            c.body = fn(c.body)
+    rec(tree)
+
+
+def _pattern_test(pat, subj):
+    """test expression equivalent to a simple match pattern on subject expression `subj`, or None"""
+    def S():
+        return copy.deepcopy(subj)
+    if isinstance(pat, ast.MatchValue):
+        return ast.Compare(left=S(), ops=[ast.Eq()], comparators=[copy.deepcopy(pat.value)])
+    if isinstance(pat, ast.MatchSingleton):
+        return ast.Compare(left=S(), ops=[ast.Is()], comparators=[ast.Constant(value=pat.value)])
+    if isinstance(pat, ast.MatchOr):
+        parts = [_pattern_test(p_, subj) for p_ in pat.patterns]
+        if any(x is None for x in parts):
+            return None
+        return ast.BoolOp(op=ast.Or(), values=parts)
+    if isinstance(pat, ast.MatchClass) and not pat.patterns and not pat.kwd_patterns:
+        return ast.Call(func=ast.Name(id="isinstance", ctx=ast.Load()), args=[S(), copy.deepcopy(pat.cls)], keywords=[])
+    if isinstance(pat, ast.MatchAs) and pat.pattern is None and pat.name is None:
+        return ast.Constant(value=True)
+    return None
+
+
+def desugar_match(tree):
+    """`match X:` over literal / singleton / class() / `_` patterns (with optional guards) -> an if/elif chain"""
+    n = [0]
+
+    def fn(stmts):
+        out = []
+        for st in stmts:
+            if not isinstance(st, ast.Match):
+                out.append(st)
+                continue
+            subj = st.subject
+            pre = []
+            if not isinstance(subj, (ast.Name, ast.Attribute, ast.Constant)):
+                n[0] += 1
+                tmp = "__match%d" % n[0]
+                pre = [ast.copy_location(ast.Assign(targets=[ast.Name(id=tmp, ctx=ast.Store())], value=subj), st)]
+                subj = ast.Name(id=tmp, ctx=ast.Load())
+            tests = []
+            ok = True
+            for c in st.cases:
+                t = _pattern_test(c.pattern, subj)
+                if t is None:
+                    ok = False
+                    break
+                if c.guard is not None:
+                    t = c.guard if (isinstance(t, ast.Constant) and t.value is True) else ast.BoolOp(op=ast.And(), values=[t, c.guard])
+                tests.append((t, c.body))
+            if not ok:
+                out.append(st)
+                continue
+            chain = None
+            for t, body in reversed(tests):
+                if isinstance(t, ast.Constant) and t.value is True:
+                    chain = list(body)
+                else:
+                    node = ast.If(test=t, body=list(body), orelse=chain or [])
+                    ast.copy_location(node, body[0])
+                    chain = [node]
+            n[0] += 1
+            for x in pre + (chain or []):
+                ast.copy_location(x, st) if not hasattr(x, "lineno") else None
+            out.extend(pre + (chain or [ast.Pass()]))
+        return out
+    _map_blocks(tree, fn)
+    if n[0]:
+        ast.fix_missing_locations(tree)
+    return n[0]
+
+
+def lower_suppress(tree):
+    """`with contextlib.suppress(E...): BODY` -> `try: BODY except (E...): pass`"""
+    n = [0]
+
+    def fn(stmts):
+        out = []
+        for st in stmts:
+            if isinstance(st, ast.With) and len(st.items) == 1 and st.items[0].optional_vars is None:
+                ce = st.items[0].context_expr
+                if isinstance(ce, ast.Call) and ast.unparse(ce.func) in ("contextlib.suppress", "suppress") and ce.args and not ce.keywords:
+                    typ = ce.args[0] if len(ce.args) == 1 else ast.Tuple(elts=list(ce.args), ctx=ast.Load())
+                    h = ast.ExceptHandler(type=typ, name=None, body=[ast.Pass()])
+                    new = ast.Try(body=st.body, handlers=[h], orelse=[], finalbody=[])
+                    ast.copy_location(new, st)
+                    ast.copy_location(h, st)
+                    out.append(new)
+                    n[0] += 1
+                    continue
+            out.append(st)
+        return out
+    _map_blocks(tree, fn)
+    if n[0]:
+        ast.fix_missing_locations(tree)
+    return n[0]
+
+
+def _first_evaluated_walrus(test):
+    """the NamedExpr that is evaluated first and unconditionally when `test` is evaluated: returns (parent setter, walrus) or None"""
+    if isinstance(test, ast.NamedExpr) and isinstance(test.target, ast.Name):
+        return ("self", None, test)
+    if isinstance(test, ast.Compare) and isinstance(test.left, ast.NamedExpr) and isinstance(test.left.target, ast.Name):
+        return ("left", test, test.left)
+    if isinstance(test, ast.UnaryOp) and isinstance(test.op, ast.Not):
+        r = _first_evaluated_walrus(test.operand)
+        if r and r[0] == "self":
+            return ("operand", test, r[2])
+        return r
+    if isinstance(test, ast.BoolOp):
+        r = _first_evaluated_walrus(test.values[0])
+        if r and r[0] == "self":
+            return ("value0", test, r[2])
+        return r
+    return None
+
+
+def lower_walrus_if(tree):
+    """`if (x := E): ...` / `if (x := E) is None: ...` -> `x = E` ; `if x ...:`   (the first operand of an `if` test is
+    evaluated exactly once and unconditionally)"""
+    n = [0]
+
+    def fn(stmts):
+        out = []
+        for st in stmts:
+            r = _first_evaluated_walrus(st.test) if isinstance(st, ast.If) else None
+            if r is not None:
+                how, holder, w = r
+                a = ast.Assign(targets=[ast.Name(id=w.target.id, ctx=ast.Store())], value=w.value)
+                ast.copy_location(a, st)
+                nm = ast.copy_location(ast.Name(id=w.target.id, ctx=ast.Load()), w)
+                if how == "self":
+                    st.test = nm
+                elif how == "left":
+                    holder.left = nm
+                elif how == "operand":
+                    holder.operand = nm
+                elif how == "value0":
+                    holder.values[0] = nm
+                out.extend([a, st])
+                n[0] += 1
+                continue
+            out.append(st)
+        return out
+    _map_blocks(tree, fn)
+    if n[0]:
+        ast.fix_missing_locations(tree)
+    return n[0]
+
+
+def lower_ifexp(tree):
+    """`x = A if c else B` / `return A if c else B` -> if/else statements (one canonical form for rules)"""
+    n = [0]
+
+    def fn(stmts):
+        out = []
+        for st in stmts:
+            v = getattr(st, "value", None)
+            if isinstance(st, (ast.Assign, ast.Return)) and isinstance(v, ast.IfExp):
+                def mk(val):
+                    if isinstance(st, ast.Return):
+                        new = ast.Return(value=val)
+                    else:
+                        new = ast.Assign(targets=copy.deepcopy(st.targets), value=val)
+                    return ast.copy_location(new, st)
+                node = ast.If(test=v.test, body=[mk(v.body)], orelse=[mk(v.orelse)])
+                ast.copy_location(node, st)
+                out.extend(fn([node]) if isinstance(v.body, ast.IfExp) or isinstance(v.orelse, ast.IfExp) else [node])
+                n[0] += 1
+                continue
+            out.append(st)
+        # nested conditional expressions produced above
+        res = []
+        for st in out:
+            if isinstance(st, ast.If):
+                st.body = fn(st.body) if any(isinstance(getattr(x, "value", None), ast.IfExp) for x in st.body) else st.body
+                st.orelse = fn(st.orelse) if any(isinstance(getattr(x, "value", None), ast.IfExp) for x in st.orelse) else st.orelse
+            res.append(st)
+        return res
+    _map_blocks(tree, fn)
+    if n[0]:
+        ast.fix_missing_locations(tree)
+    return n[0]
+
+
+def propagate_aliases(tree):
+    """copy propagation of read-only local aliases of attribute chains: `curves = self.curves`, `well = las.well`,
+    `lookup = orders.get` - bound once, at the top level of the function body, from a chain over a parameter / self / a local
+    that is itself bound once; every later load of the alias is replaced by the chain"""
+    total = [0]
+
+    def chain_base(e):
+        while isinstance(e, ast.Attribute):
+            e = e.value
+        return e if isinstance(e, ast.Name) else None
+
+    for fn in [x for x in ast.walk(tree) if isinstance(x, (ast.FunctionDef, ast.AsyncFunctionDef))]:
+        # binding census (not descending into nested defs for stores, but nested defs may read the alias)
+        stores = {}
+        for sub in ast.walk(fn):
+            if isinstance(sub, ast.Name) and isinstance(sub.ctx, (ast.Store, ast.Del)):
+                stores[sub.id] = stores.get(sub.id, 0) + 1
+            if isinstance(sub, (ast.Global, ast.Nonlocal)):
+                for nm in sub.names:
+                    stores[nm] = stores.get(nm, 0) + 5
+        params = {a.arg for a in fn.args.args + fn.args.kwonlyargs}
+        blocks = []
+
+        def collect(node):
+            for fld in ("body", "orelse", "finalbody"):
+                blk = getattr(node, fld, None)
+                if isinstance(blk, list) and blk and isinstance(blk[0], ast.stmt):
+                    blocks.append(blk)
+                    for x in blk:
+                        if not isinstance(x, (ast.FunctionDef, ast.AsyncFunctionDef, ast.ClassDef)):
+                            collect(x)
+            for h in getattr(node, "handlers", []) or []:
+                blocks.append(h.body)
+                for x in h.body:
+                    collect(x)
+        collect(fn)
+        for blk, st in [(b, x) for b in blocks for x in list(b)]:
+            if not (isinstance(st, ast.Assign) and len(st.targets) == 1 and isinstance(st.targets[0], ast.Name)
+                    and isinstance(st.value, ast.Attribute)):
+                continue
+            if blk is not fn.body:
+                # nested binding: every load of the alias must come later in the same block (no use before / outside it),
+                # and the binding must not sit in a loop body (one binding per iteration is still one value per use)
+                idx0 = blk.index(st)
+                inside = {id(x) for later in blk[idx0 + 1:] for x in ast.walk(later)}
+                loads = [x for x in ast.walk(fn) if isinstance(x, ast.Name) and x.id == st.targets[0].id and isinstance(x.ctx, ast.Load)]
+                if any(id(x) not in inside for x in loads):
+                    continue
+            alias = st.targets[0].id
+            base = chain_base(st.value)
+            if base is None or stores.get(alias, 0) != 1 or alias in params:
+                continue
+            if not (base.id in params and stores.get(base.id, 0) == 0 or stores.get(base.id, 0) == 1 and base.id not in params):
+                continue
+            # attributes of the chain must not be assigned in this function (e.g. `self.curves = ...`)
+            chain_txt = ast.unparse(st.value)
+            if any(isinstance(x, ast.Attribute) and isinstance(x.ctx, ast.Store) and ast.unparse(x) == chain_txt for x in ast.walk(fn)):
+                continue
+            value = st.value
+
+            class R(ast.NodeTransformer):
+                def visit_Name(self, node):
+                    if node.id == alias and isinstance(node.ctx, ast.Load):
+                        total[0] += 1
+                        return ast.copy_location(copy.deepcopy(value), node)
+                    return node
+            idx = blk.index(st)
+            for later in blk[idx + 1:]:
+                R().visit(later)
+    if total[0]:
+        ast.fix_missing_locations(tree)
+    return total[0]
+
+
+def _literal_seq(e):
+    """elements of a literal tuple/list (possibly sliced / indexed by constants), or None"""
+    if isinstance(e, (ast.Tuple, ast.List)) and not any(isinstance(x, ast.Starred) for x in e.elts):
+        return list(e.elts)
+    if isinstance(e, ast.Subscript):
+        base = _literal_seq(e.value)
+        if base is None:
+            return None
+        sl = e.slice
+        if isinstance(sl, ast.Slice) and all(b is None or (isinstance(b, ast.Constant) and isinstance(b.value, int)) or (
+                isinstance(b, ast.UnaryOp) and isinstance(b.op, ast.USub) and isinstance(b.operand, ast.Constant)) for b in (sl.lower, sl.upper, sl.step)):
+            def val(b):
+                if b is None:
+                    return None
+                return b.value if isinstance(b, ast.Constant) else -b.operand.value
+            return base[slice(val(sl.lower), val(sl.upper), val(sl.step))]
+    return None
+
+
+def _simple_elt(e):
+    if isinstance(e, (ast.Constant, ast.Name)):
+        return True
+    if isinstance(e, ast.Attribute):
+        return _simple_elt(e.value)
+    if isinstance(e, ast.UnaryOp) and isinstance(e.operand, ast.Constant):
+        return True
+    if isinstance(e, (ast.Tuple, ast.List)):
+        return all(_simple_elt(x) for x in e.elts)
+    return False
+
+
+def unroll_constant_loops(tree, limit=8):
+    """`for x in ("a", "b", "c"): BODY`, `for k, v in (("a", x), ("b", y)): BODY` and `for k, v in zip((..), (..)): BODY` over
+    short literal sequences of simple elements, without break/continue/else: replaced by the unrolled bodies with the loop
+    variables substituted (table-driven code becomes the straight-line code rules are written against)"""
+    n = [0]
+
+    def rows_of(it):
+        seq = _literal_seq(it)
+        if seq is not None:
+            return seq
+        if isinstance(it, ast.Call) and isinstance(it.func, ast.Name) and it.func.id == "zip" and not it.keywords and it.args:
+            cols = [_literal_seq(a) for a in it.args]
+            if any(c is None for c in cols):
+                return None
+            m = min(len(c) for c in cols)
+            return [ast.Tuple(elts=[c[i] for c in cols], ctx=ast.Load()) for i in range(m)]
+        return None
+
+    def bind(target, value, env):
+        if isinstance(target, ast.Name):
+            env[target.id] = value
+            return True
+        if isinstance(target, (ast.Tuple, ast.List)) and isinstance(value, (ast.Tuple, ast.List)) and len(target.elts) == len(value.elts):
+            return all(bind(t, v, env) for t, v in zip(target.elts, value.elts))
+        return False
+
+    def fn(stmts):
+        out = []
+        for st in stmts:
+            if isinstance(st, ast.For) and not st.orelse:
+                rows = rows_of(st.iter)
+                names = {x.id for x in ast.walk(st.target) if isinstance(x, ast.Name)}
+                body_nodes = [x for b in st.body for x in ast.walk(b)]
+                if rows is not None and 0 < len(rows) <= limit and all(_simple_elt(r) for r in rows) \
+                        and not any(isinstance(x, (ast.Break, ast.Continue, ast.FunctionDef, ast.Lambda, ast.Return)) for x in body_nodes) \
+                        and not any(isinstance(x, ast.Name) and x.id in names and isinstance(x.ctx, ast.Store) for x in body_nodes):
+                    ok = True
+                    unrolled = []
+                    for r in rows:
+                        env = {}
+                        if not bind(st.target, r, env):
+                            ok = False
+                            break
+
+                        class R(ast.NodeTransformer):
+                            def visit_Name(self, node):
+                                if node.id in env and isinstance(node.ctx, ast.Load):
+                                    return ast.copy_location(copy.deepcopy(env[node.id]), node)
+                                return node
+                        for b in st.body:
+                            unrolled.append(R().visit(copy.deepcopy(b)))
+                    if ok:
+                        # names of the loop variables stay bound to the last row after the loop, as in the original
+                        last = {}
+                        bind(st.target, rows[-1], last)
+                        n[0] += 1
+                        out.extend(unrolled)
+                        continue
+            out.append(st)
+        return out
+    _map_blocks(tree, fn)
+    if n[0]:
+        ast.fix_missing_locations(tree)
+    return n[0]
+
+
+def lower_getsetattr(tree):
+    """`setattr(o, "name", v)` -> `o.name = v` (statement), `getattr(o, "name")` -> `o.name` for constant identifier names"""
+    n = [0]
+
+    class G(ast.NodeTransformer):
+        def visit_Call(self, node):
+            self.generic_visit(node)
+            if isinstance(node.func, ast.Name) and node.func.id == "getattr" and len(node.args) == 2 and not node.keywords \
+                    and isinstance(node.args[1], ast.Constant) and isinstance(node.args[1].value, str) and node.args[1].value.isidentifier():
+                n[0] += 1
+                return ast.copy_location(ast.Attribute(value=node.args[0], attr=node.args[1].value, ctx=ast.Load()), node)
+            return node
+    G().visit(tree)
+
+    def fn(stmts):
+        out = []
+        for st in stmts:
+            if isinstance(st, ast.Expr) and isinstance(st.value, ast.Call) and isinstance(st.value.func, ast.Name) and st.value.func.id == "setattr" \
+                    and len(st.value.args) == 3 and not st.value.keywords and isinstance(st.value.args[1], ast.Constant) \
+                    and isinstance(st.value.args[1].value, str) and st.value.args[1].value.isidentifier():
+                a = st.value.args
+                new = ast.Assign(targets=[ast.Attribute(value=a[0], attr=a[1].value, ctx=ast.Store())], value=a[2])
+                out.append(ast.copy_location(new, st))
+                n[0] += 1
+                continue
+            out.append(st)
+        return out
+    _map_blocks(tree, fn)
+    if n[0]:
+        ast.fix_missing_locations(tree)
+    return n[0]
+
+
+def lower_walrus_while(tree):
+    """`while (x := E): BODY` -> `x = E` ; `while x: BODY ; x = E` when BODY has no `continue` of its own (the classic
+    priming-read form)"""
+    n = [0]
+
+    def own_continue(body):
+        stack = list(body)
+        while stack:
+            s_ = stack.pop()
+            if isinstance(s_, ast.Continue):
+                return True
+            if isinstance(s_, (ast.For, ast.While, ast.FunctionDef, ast.AsyncFunctionDef, ast.ClassDef)):
+                continue
+            for fld in ("body", "orelse", "finalbody"):
+                stack.extend(getattr(s_, fld, []) or [])
+            for h in getattr(s_, "handlers", []) or []:
+                stack.extend(h.body)
+        return False
+
+    def fn(stmts):
+        out = []
+        for st in stmts:
+            if isinstance(st, ast.While) and isinstance(st.test, ast.NamedExpr) and isinstance(st.test.target, ast.Name) \
+                    and not st.orelse and not own_continue(st.body):
+                w = st.test
+                first = ast.copy_location(ast.Assign(targets=[ast.Name(id=w.target.id, ctx=ast.Store())], value=w.value), st)
+                again = ast.copy_location(ast.Assign(targets=[ast.Name(id=w.target.id, ctx=ast.Store())], value=copy.deepcopy(w.value)), st.body[-1])
+                st.test = ast.copy_location(ast.Name(id=w.target.id, ctx=ast.Load()), w)
+                st.body = st.body + [again]
+                out.extend([first, st])
+                n[0] += 1
+                continue
+            out.append(st)
+        return out
+    _map_blocks(tree, fn)
+    if n[0]:
+        ast.fix_missing_locations(tree)
+    return n[0]
+
+
+def split_multi_assign(tree):
+    """`a, b = X, Y` (displays of equal length, no target read on the right) -> `a = X; b = Y`;
+    `a = b = <constant>` -> `a = <constant>; b = <constant>`"""
+    n = [0]
+
+    def fn(stmts):
+        out = []
+        for st in stmts:
+            if isinstance(st, ast.Assign) and len(st.targets) == 1 and isinstance(st.targets[0], (ast.Tuple, ast.List)) \
+                    and isinstance(st.value, (ast.Tuple, ast.List)) and len(st.targets[0].elts) == len(st.value.elts) \
+                    and all(isinstance(t, ast.Name) for t in st.targets[0].elts) \
+                    and not any(isinstance(x, ast.Starred) for x in st.value.elts):
+                tn = {t.id for t in st.targets[0].elts}
+                if not any(isinstance(x, ast.Name) and x.id in tn for v in st.value.elts for x in ast.walk(v)):
+                    for t, v in zip(st.targets[0].elts, st.value.elts):
+                        out.append(ast.copy_location(ast.Assign(targets=[t], value=v), st))
+                    n[0] += 1
+                    continue
+            if isinstance(st, ast.Assign) and len(st.targets) > 1 and isinstance(st.value, ast.Constant) \
+                    and all(isinstance(t, ast.Name) for t in st.targets):
+                for t in st.targets:
+                    out.append(ast.copy_location(ast.Assign(targets=[t], value=copy.deepcopy(st.value)), st))
+                n[0] += 1
+                continue
+            out.append(st)
+        return out
+    _map_blocks(tree, fn)
+    if n[0]:
+        ast.fix_missing_locations(tree)
+    return n[0]
+
+
+def canonical_tests(tree):
+    """negations pushed through and/or (de Morgan, same evaluation order and short-circuiting), `not not x` in a test -> x,
+    `not (a in b)` -> `a not in b`, `not (a is b)` -> `a is not b`"""
+    n = [0]
+
+    def neg(e):
+        """expression equivalent to `not e` in a boolean context, pushed inward where exact"""
+        if isinstance(e, ast.UnaryOp) and isinstance(e.op, ast.Not):
+            return pos(e.operand)
+        if isinstance(e, ast.BoolOp):
+            n[0] += 1
+            return ast.copy_location(ast.BoolOp(op=ast.And() if isinstance(e.op, ast.Or) else ast.Or(), values=[neg(v) for v in e.values]), e)
+        if isinstance(e, ast.Compare) and len(e.ops) == 1 and isinstance(e.ops[0], (ast.In, ast.NotIn, ast.Is, ast.IsNot)):
+            n[0] += 1
+            flip = {ast.In: ast.NotIn, ast.NotIn: ast.In, ast.Is: ast.IsNot, ast.IsNot: ast.Is}[type(e.ops[0])]
+            return ast.copy_location(ast.Compare(left=e.left, ops=[flip()], comparators=e.comparators), e)
+        return ast.copy_location(ast.UnaryOp(op=ast.Not(), operand=e), e)
+
+    def pos(e):
+        if isinstance(e, ast.UnaryOp) and isinstance(e.op, ast.Not):
+            inner = e.operand
+            if isinstance(inner, (ast.BoolOp, ast.UnaryOp)) or (
+                    isinstance(inner, ast.Compare) and len(inner.ops) == 1 and isinstance(inner.ops[0], (ast.In, ast.NotIn, ast.Is, ast.IsNot))):
+                return neg(inner)
+            return e
+        if isinstance(e, ast.BoolOp):
+            e.values = [pos(v) for v in e.values]
+            # flatten nested operators of the same kind: (a and b) and c
+            flat = []
+            for v in e.values:
+                if isinstance(v, ast.BoolOp) and type(v.op) is type(e.op):
+                    flat.extend(v.values)
+                else:
+                    flat.append(v)
+            e.values = flat
+            return e
+        return e
+    for node in ast.walk(tree):
+        if isinstance(node, (ast.If, ast.While, ast.IfExp)):
+            node.test = pos(node.test)
+        elif isinstance(node, ast.comprehension):
+            node.ifs = [pos(t) for t in node.ifs]
+    if n[0]:
+        ast.fix_missing_locations(tree)
+    return n[0]
+
+
+def split_and_ifs(tree):
+    """`if a and b: BODY` (no else) -> `if a: if b: BODY` - one canonical form for guards, whether written nested or merged"""
+    n = [0]
+
+    def fn(stmts):
+        out = []
+        for st in stmts:
+            if isinstance(st, ast.If) and not st.orelse and isinstance(st.test, ast.BoolOp) and isinstance(st.test.op, ast.And):
+                vals = st.test.values
+                inner = st.body
+                for v in reversed(vals[1:]):
+                    node = ast.If(test=v, body=inner, orelse=[])
+                    ast.copy_location(node, v)
+                    inner = [node]
+                st.test = vals[0]
+                st.body = inner
+                n[0] += 1
+            out.append(st)
+        return out
+    _map_blocks(tree, fn)
+    if n[0]:
+        ast.fix_missing_locations(tree)
+    return n[0]
+
+
 def normalize(tree):
-    stats = {"constants": propagate_constants(tree), "inlined": 0, "resugared": resugar_loops(tree)}
+    stats = {"match": desugar_match(tree), "suppress": lower_suppress(tree), "walrus": lower_walrus_if(tree) + lower_walrus_while(tree)}
+    stats.update({"constants": propagate_constants(tree), "inlined": 0, "resugared": resugar_loops(tree)})
     for _ in range(MAX_ROUNDS):
         n = inline_helpers(tree)
         stats["inlined"] += n
         if not n:
             break
     stats["expr_inlined"] = inline_expression_helpers(tree)
+    stats["aliases"] = propagate_aliases(tree)
+    stats["unrolled"] = unroll_constant_loops(tree)
+    stats["getsetattr"] = lower_getsetattr(tree)
+    stats["ifexp"] = lower_ifexp(tree)
+    stats["multi_assign"] = split_multi_assign(tree)
+    stats["tests"] = canonical_tests(tree)
     return stats
